@@ -80,14 +80,17 @@ NAME_ATOMS = ["foo", "Door 7", "x", " ", "  lead", "trail ", "a (version 07)", "
               "123456-1234-1234-12", "12345_1234-1234-12", "-", "--", "0", "99", "1-2-3-4", "None", "",
               "café", "²³¹", "¼", "ÿ", "tab\there", "cr\rx", "nl\nx", "\nlead", "trail\n",
               "a\n (version 01)", "€ uro", "\U0001F600", "٣٤", "１２３４５-1234-1234-12 x",
-              "١٢٣٤٥-١٢٣٤-١٢٣٤-١٢ foo"]
+              "١٢٣٤٥-١٢٣٤-١٢٣٤-١٢ foo",
+              # characters that mean something to str.format / % / templates / regular expressions
+              "{", "}", "{}", "{{", "}}", "{{x}}", "{version}", "{name}", "{0}", "a{version}b", "100%", "%s", "%(name)s", "%d",
+              "$name", "${x}", "\\1", "\\", "a|b", "(x", "x)", "[x]", "x*", "x+", "x?", "^x$", "{version:02}"]
 
 
 def rand_name(r):
     k = r.random()
     if k < 0.45:
         return r.choice(NAME_ATOMS)
-    alphabet = "0123456789-- ()versionV\n\r\té²x"
+    alphabet = "0123456789-- ()versionV\n\r\té²x{}%"
     if k < 0.8:
         return "".join(r.choice(alphabet) for _ in range(r.choice([1, 2, 5, 18, 19, 25])))
     # id-like prefix with small perturbations, followed by a tail
